@@ -935,6 +935,14 @@ impl Compiler {
         // If max_items is None, we can add an infinite tail of items later
         let n_to_add = max_items.map_or(arr.prefix_items.len().max(min_items), |max| max);
 
+        // every one of these items becomes part of the grammar, so bound them like the grammar
+        let max_grammar_size = self.builder.limits().max_grammar_size;
+        if n_to_add > max_grammar_size {
+            bail!(
+                "array with {n_to_add} explicit items (minItems/maxItems/prefixItems) is too big (limit for this grammar: {max_grammar_size})"
+            );
+        }
+
         for i in 0..n_to_add {
             let item = if i < arr.prefix_items.len() {
                 match self.gen_json(&arr.prefix_items[i]) {
